@@ -246,6 +246,15 @@ def callsT (fx : Bool) (vcTok : Nat) (vc : TSlots) : Nat → Nat → Option (Nat
     | .error e => [.error e]
     | .ok r => .ok r :: callsT fx vcTok vc k r.next (some (r.ctxTok, r.ctx))
 
+/-- different variables applied one after the other, each to the value the previous one returned
+(`Sequence(v₁, v₂, …)` on identities); `callsT k` is `seqT` of `k` copies of one variable -/
+def seqT (fx : Bool) : List (Nat × TSlots) → Nat → Option (Nat × TSlots) → List (Except Err CallRes)
+  | [], _, _ => []
+  | (vt, vc) :: r, next, ctx =>
+    match callT names fx next vt vc ctx with
+    | .error e => [.error e]
+    | .ok res => .ok res :: seqT fx r res.next (some (res.ctxTok, res.ctx))
+
 end withNames
 
 /-! ## what the theorems speak about (executable) -/
